@@ -86,8 +86,10 @@ Print Assumptions backward_transport.
 
 (* backward_intact: data entering the exit socket from outside (tunnel_data) reaches the originator's
    consumer byte for byte, attributed to the outside source the exit observed, under this circuit's id:
-   raw data -> on_raw_data; IPv8-shaped with our prefix -> re-injected with the circuit id; the state of the
-   exit and of the originator is unchanged. *)
+   raw data -> on_raw_data; IPv8-shaped with our prefix -> handed to the dispatcher with the circuit id ONLY for
+   message ids registered as acceptable from a data message (hidden-services lookups), dropped otherwise - a
+   circuit control message (create, data, ping, ...) sent by the outside world is never executed; the state of
+   the exit and of the originator is unchanged. *)
 Theorem backward_intact :
   forall (key nonce : Type) (enc : key -> dir -> nonce -> bytes -> bytes) (dec : key -> dir -> bytes -> option bytes)
          (p : path key) (source : addr) (data : bytes) (nsx : nat -> nonce) (rnd : Z -> bytes)
@@ -105,7 +107,11 @@ Theorem backward_intact :
     /\ on_packet enc dec (p_origin p) a1 (nth (length (p_relays p)) links []) rnd nso
        = Ok (p_origin p,
              if could_be_ipv8 data && negb (is_e2e (c_ctype (p_circ p))) then
-               if bytes_eqb (p_pfx p) (slice data None (Some 22)) then [Reinject source data (p_cid p)]
+               if bytes_eqb (p_pfx p) (slice data None (Some 22)) then
+                 match idx data 22 with
+                 | Ok m => if existsb (Z.eqb m) (n_data_ids (p_origin p)) then [Reinject source data (p_cid p)] else []
+                 | Raise _ => []
+                 end
                else if n_tunnel_ep (p_origin p) then [NotifyOther source data] else []
              else [RawData (p_cid p) source data]).
 Proof. exact backward_intact_l. Qed.
@@ -353,15 +359,15 @@ Definition xaX := A4 [10; 0; 2; 1] 1000.
 Definition xhandlers : list Z := [1; 2; 3; 4; 5; 6; 7; 19; 20].
 Definition xcirc : circuit Z :=
   mkCircuit 3 CT_DATA [mkHop 1 xaR1 (Some 11); mkHop 2 null_addr (Some 12); mkHop 3 null_addr (Some 13)] None None false 3.
-Definition xO : node Z := mkNode xpfx 8 [1] xhandlers false [(100, xcirc)] [] [].
+Definition xO : node Z := mkNode xpfx 8 [1] xhandlers [] false [(100, xcirc)] [] [].
 Definition xR1 : node Z :=
-  mkNode xpfx 8 [1] xhandlers false []
+  mkNode xpfx 8 [1] xhandlers [] false []
          [(100, mkRR 200 (mkHop 2 xaR2 (Some 11)) FORWARD false 1); (200, mkRR 100 (mkHop 0 xaO (Some 11)) BACKWARD false 1)] [].
 Definition xR2 : node Z :=
-  mkNode xpfx 8 [1] xhandlers false []
+  mkNode xpfx 8 [1] xhandlers [] false []
          [(200, mkRR 300 (mkHop 3 xaX (Some 12)) FORWARD false 1); (300, mkRR 200 (mkHop 1 xaR1 (Some 12)) BACKWARD false 1)] [].
 Definition xsock : exit_sock Z := mkES 300 (mkHop 2 xaR2 (Some 13)) false.
-Definition xX : node Z := mkNode xpfx 8 [1; 2] xhandlers false [] [] [(300, xsock)].
+Definition xX : node Z := mkNode xpfx 8 [1; 2] xhandlers [] false [] [] [(300, xsock)].
 Definition xpath : path Z :=
   mkPath xpfx xO xaO 100 xcirc [mkRS xaR1 xR1 100 200 11; mkRS xaR2 xR2 200 300 12] xX xaX 300 xsock 13.
 
@@ -453,16 +459,16 @@ Definition yacirc : circuit Z :=
   mkCircuit 2 CT_RP_DOWNLOADER [mkHop 1 yaRA (Some 21); mkHop 2 yaRP (Some 22)] None (Some 99) false 8.
 Definition ybcirc : circuit Z :=
   mkCircuit 2 CT_RP_SEEDER [mkHop 3 yaRB (Some 31); mkHop 2 null_addr (Some 32)] None (Some 99) false 8.
-Definition yA : node Z := mkNode xpfx 8 [1] xhandlers false [(500, yacirc)] [] [].
-Definition yB : node Z := mkNode xpfx 8 [1] xhandlers false [(700, ybcirc)] [] [].
+Definition yA : node Z := mkNode xpfx 8 [1] xhandlers [] false [(500, yacirc)] [] [].
+Definition yB : node Z := mkNode xpfx 8 [1] xhandlers [] false [(700, ybcirc)] [] [].
 Definition yRA : node Z :=
-  mkNode xpfx 8 [1] xhandlers false []
+  mkNode xpfx 8 [1] xhandlers [] false []
          [(500, mkRR 510 (mkHop 2 yaRP (Some 21)) FORWARD false 5); (510, mkRR 500 (mkHop 0 yaA (Some 21)) BACKWARD false 5)] [].
 Definition yRB : node Z :=
-  mkNode xpfx 8 [1] xhandlers false []
+  mkNode xpfx 8 [1] xhandlers [] false []
          [(700, mkRR 710 (mkHop 2 yaRP (Some 31)) FORWARD false 5); (710, mkRR 700 (mkHop 4 yaB (Some 31)) BACKWARD false 5)] [].
 Definition yRP : node Z :=
-  mkNode xpfx 8 [1; 2] xhandlers false []
+  mkNode xpfx 8 [1; 2] xhandlers [] false []
          [(510, mkRR 710 (mkHop 3 yaRB (Some 22)) FORWARD true 2); (710, mkRR 510 (mkHop 1 yaRA (Some 32)) FORWARD true 2)] [].
 Definition ye2e : e2e_path Z :=
   mkE2E xpfx yA yaA 500 yacirc [mkRS yaRA yRA 500 510 21] yRP yaRP 510 710 22 32
